@@ -30,7 +30,7 @@ ASSUMPTIONS = ["scales (diagonals, doubled-order moments) are taken from the obs
 
 def gen_cases(tier, seed):
     cases = []
-    n = 48 if tier == "quick" else 300
+    n = 48 if tier == "quick" else 600
     for i in range(n):
         rng = bases.rng_for("C11", seed, tier, "perm", i)
         nsh = 2 + i % 4
@@ -44,14 +44,14 @@ def gen_cases(tier, seed):
         cases.append({"kind": "perm", "shells": shells, "eri": eri, "seed": [seed, i], "classes": classes + ["perm", "nsh:%d" % nsh, "types:" + "".join(tp)] + (["with-eri"] if eri else []),
                       "cost": (24 if nsh >= 4 else 6) * nsh * nsh * (4 if eri else 1)})
     # kernel orientations: pairs
-    m = 40 if tier == "quick" else 240
+    m = 40 if tier == "quick" else 600
     for i in range(m):
         rng = bases.rng_for("C11", seed, tier, "pair", i)
         ls = [int(rng.integers(0, 5)), int(rng.integers(0, 5))]
         shells, classes = bases.rand_basis(rng, ls, types=["c", "c"], emin=0.02, emax_fn=bases.cap, Kmax=3, Mmax=3, scale=1.0)
         cases.append({"kind": "pair", "shells": shells, "classes": classes + ["pair", "ls:%d%d" % tuple(ls)], "cost": 30})
     # kernel orientations: quartets (random + ill-conditioned list)
-    mq = 32 if tier == "quick" else 200
+    mq = 32 if tier == "quick" else 400
     for i in range(mq):
         rng = bases.rng_for("C11", seed, tier, "quartet", i)
         ls = [int(x) for x in rng.integers(0, 4, size=4)]
